@@ -20,7 +20,7 @@ LEVEL = "fault_enumeration"
 BUDGET = {"quick": 150, "thorough": 900}
 EXHAUSTIVE = {"quick": True, "thorough": True}
 RULE = ("Grid (complete): starttls argument {False, True, 1 (truthy, not the True singleton)} x server STARTTLS support {no,yes} x SASL announcement variant "
-        "(same pre/post; pre PLAIN -> post LOGIN only; pre none -> post PLAIN; pre PLAIN -> post none; no SASL capability) x "
+        "(same pre/post; pre PLAIN -> post LOGIN only; pre none -> post PLAIN; pre PLAIN -> post none; no SASL capability; post look-alike names only) x "
         "authmech {None, PLAIN, LOGIN, OAUTHBEARER, DIGEST-MD5, unknown} x one fault (or none) at a handshake step: greeting "
         "{refuse, BYE, NO, silence, close, garbage, missing OK}, STARTTLS {NO, BYE, silence, close, OK followed by an injected plaintext capability block}, TLS handshake "
         "{SSLError, cert error, timeout, EOF}, post-TLS capabilities {BYE, NO, silence, close, garbage, missing OK}, "
@@ -46,6 +46,8 @@ SASL_VARIANTS = [
     ("no-sasl-cap", None, None),
     ("pre-plain-post-no-sasl-line", ["PLAIN"], False),
     ("pre-plain-post-bare-sasl-line", ["PLAIN"], "bare"),
+    # after the handshake only names that merely contain the name of an implemented mechanism: nothing qualifies
+    ("pre-plain-post-lookalikes", ["PLAIN"], ["SCRAM-SHA-256-PLUS", "X-PLAIN-SUBMIT", "NTLOGIN", "DIGEST-MD5-SESS"]),
 ]
 AUTHMECHS = [None, "PLAIN", "LOGIN", "OAUTHBEARER", "X-UNKNOWN", "DIGEST-MD5"]
 FAULTS = [None] + \
